@@ -73,7 +73,7 @@ BUILT = {
               "every reachable set (history depth bound; loaded through a fresh Parser, a just-failed Parser and from a file with parse_file) and every name/description up to the length bound under 4 marker pairs (one non-ASCII) is "
               "rendered, parsed, reloaded and compared; the reloaded rendering must be a fixed point", _FACTORY_NOTE, "3 C11"),
     "C12": _b(F, "all operation sequences up to a bound without dedup + BFS with dedup over the real FiltersSet vs reference list model",
-              "every sequence of <= 3 (thorough: 4 when it starts with an add) of ~100 events (str and bytes names, canonically equivalent names, contents that are bare parsed actions, a filter's own content under a new name, definitions refused while they are built) and a deduplicated BFS to depth 6/12, the same events on a set sharing its parse result with an untouched twin; after every event return value, order, "
+              "every sequence of <= 3 (thorough: 4 when it starts with an add) of ~100 events (str and bytes names, canonically equivalent names, contents that are bare parsed actions, a filter's own content under a new name, definitions refused while they are built) and a deduplicated BFS to depth 6/8, the same events on a set sharing its parse result with an untouched twin; after every event return value, order, "
               "flags, is_filter_disabled, filter_exists, wrapper structure and getfilter content are compared with the list model", _FACTORY_NOTE, "3 C12"),
     "C13": _b(P, "exhaustive histories over an object pool; differential vs pristine forked interpreters",
               "every history of <= 3/4 events on two reused parsers, fresh parsers and two FiltersSets (incl. from_parser_result on the shared parser, "
